@@ -83,6 +83,11 @@ class C09(framework.PropertyCheck):
                 yield c
             elif k == 'str':
                 v = self.big(rng)
+                if rng.random() < 0.2:
+                    t, b = rng.choice([('0b1', 16), ('0B', 16), ('0b10', 16), ('0B1f', 16), ('0b', 16), ('-0b1', 16), ('0b1', 2), ('0B101', 2),
+                                       ('0x1f', 16), ('0XfF', 16), ('0o17', 8), ('0d9', 16), ('00b1', 16), ('0', 2), ('00', 10), ('-0', 8)])
+                    yield {'k': k, 'v': 0, 'base': b, 'text': t}
+                    continue
                 yield {'k': k, 'v': v, 'base': rng.choice([2, 8, 10, 16])}
             else:
                 w = rng.choice([1, 4, 8, 33, 64, 65, 100, 200])
@@ -161,6 +166,11 @@ class C09(framework.PropertyCheck):
                         [(2, want_a), (5, want), (6, I(sint(bits)))])
             return ([('loadvcd', 't0', self._vcd(w, v)),
                      ('eval', 'eor', f'(list (bits->sint "{bits}") (signed top.s) top.s (signal-width "top.s"))')], [(1, want)])
+        if k == 'str' and c.get('text'):
+            # numerals that begin like a prefixed literal: Python accepts the prefix only when it matches the base, otherwise the
+            # characters are digits of the numeral (0b1 in base 16 is 0xb1)
+            s, b = c['text'], c['base']
+            return [('eval', 'eor', f'(list (string->int "{s}" {b}))')], [(0, ('L', True, (I(int(s, b)),)))]
         if k == 'str':
             v, b = c['v'], c['base']
             digits = {2: bin, 8: oct, 16: hex}.get(b, str)(abs(v))
